@@ -1,11 +1,12 @@
 // Verus unit `reqrep`: sequential skeletons of ReqSocket / RepSocket send + recv and of the REQ backend
 // (serves C07 C08 C14, and C10 for REQ's own rotation)
 //@@ state-fields: current_request envelope
+//@@ define STUB_ITER
 #![feature(allocator_api)]
 #![allow(unused_imports, dead_code, unused_variables, unused_mut, unused_parens)]
 use vstd::prelude::*;
 use bytes::{Buf, BufMut, Bytes, BytesMut};
-use std::collections::vec_deque::{Iter, VecDeque};
+use std::collections::vec_deque::VecDeque;
 use std::collections::HashMap;
 use std::convert::{From, TryFrom, TryInto};
 use vstd::std_specs::iter::IteratorSpec;
@@ -14,6 +15,7 @@ global size_of usize == 8;
 //@@ include prelude/bytes_specs.rs
 //@@ include prelude/std_specs.rs
 //@@ include prelude/message_items.rs
+//@@ include prelude/enum_iter.rs
 //@@ include prelude/codec_types.rs
 //@@ include prelude/core_types.rs
 //@@ include prelude/socket_standins.rs
@@ -198,17 +200,21 @@ pub open spec fn delimiter_end(fr: Seq<Bytes>, dflt: int) -> int
         1 + r
     }
 }
-// A-REGION-1 (D5): `for (index, frame) in m.iter().enumerate() { if frame.is_empty() { at = index + 1; break; } }`
-// uses Iterator::enumerate, which Verus cannot parse (no vstd spec, and none can be added for a provided trait
-// method).  The loop is replaced by this stub: ASSUMED to set `at` to (index of the first empty frame) + 1 and to
-// leave it alone when there is none.  Everything around the loop is verified.
-#[verifier::external_body]
-fn assumed_delimiter_search(m: &ZmqMessage, at: usize) -> (r: usize)
-    requires 1 <= at <= m.fr().len(),
-    ensures
-        r == delimiter_end(m.fr(), at as int),
-        1 <= r <= m.fr().len(),
-{ unimplemented!() }
+/// no frame before position k is the (empty) delimiter: the search result is k + (search in the rest)
+pub proof fn lemma_delimiter_skip(fr: Seq<Bytes>, k: int, dflt: int)
+    requires 0 <= k <= fr.len(), forall|j: int| 0 <= j < k ==> b_view(&#[trigger] fr[j]).len() != 0,
+    ensures delimiter_end(fr, dflt) == k + delimiter_end(fr.subrange(k, fr.len() as int), dflt - k),
+    decreases k
+{
+    if k > 0 {
+        let t = fr.subrange(1, fr.len() as int);
+        assert forall|j: int| 0 <= j < k - 1 implies b_view(&#[trigger] t[j]).len() != 0 by { assert(t[j] == fr[j + 1]); }
+        lemma_delimiter_skip(t, k - 1, dflt - 1);
+        assert(t.subrange(k - 1, t.len() as int) =~= fr.subrange(k, fr.len() as int));
+    } else {
+        assert(fr.subrange(0, fr.len() as int) =~= fr);
+    }
+}
 
 impl RepSocket {
 //@ item src/rep.rs :: impl SocketSend for RepSocket / fn send
@@ -234,14 +240,28 @@ impl RepSocket {
 //@|    #[verifier::loop_isolation(false)]
 //@|    #[verifier::exec_allows_no_decreases_clause]
 //@ ret r
-//@ region "for (index, frame) in m.iter().enumerate()"
-//@|                        at = assumed_delimiter_search(&m, at);
-//@ region-text
-//@|                        for (index, frame) in m.iter().enumerate() {
-//@|                            if frame.is_empty() {
-//@|                                at = index + 1;
-//@|                                break;
+//@ loop 2 it
+//@|                            invariant_except_break
+//@|                                it.seq() == Seq::new(m.fr().len(), |i: int| (i as usize, &m.fr()[i])),
+//@|                                at == 1,
+//@|                                forall|j: int| 0 <= j < it.index() ==> b_view(&#[trigger] m.fr()[j]).len() != 0,
+//@|                            ensures
+//@|                                1 <= at <= m.fr().len(),
+//@ loopbody 2
+//@|                            proof {
+//@|                                assert(it.seq()[it.index() as int] == (index, frame));
+//@|                                assert(index == it.index() && *frame == m.fr()[index as int]);
+//@|                                if b_view(frame).len() == 0 {
+//@|                                    lemma_delimiter_skip(m.fr(), index as int, 1);
+//@|                                    assert(b_view(&m.fr().subrange(index as int, m.fr().len() as int)[0]).len() == 0);
+//@|                                }
 //@|                            }
+//@ afterloop 2
+//@|                        proof {
+//@|                            if forall|j: int| 0 <= j < m.fr().len() ==> b_view(&#[trigger] m.fr()[j]).len() != 0 {
+//@|                                lemma_delimiter_skip(m.fr(), m.fr().len() as int, 1);
+//@|                            }
+//@|                            assert(at == delimiter_end(m.fr(), 1));
 //@|                        }
 //@ spec
 //@|        ensures
